@@ -122,9 +122,12 @@ class Farm:
         self.stubbed = set()
         self.build_s = 0.0
         self.rounds = 0
+        self.file_alias = {}  # absolute path of a file mounted by a case (#[path]) -> case id
 
-    def add(self, case):
+    def add(self, case, mounts=()):
         self.cases[case.id] = case
+        for m in mounts:
+            self.file_alias[m] = case.id
         return case.id
 
     def shard_of(self, cid):
@@ -210,6 +213,8 @@ opt-level = 3
                     mm = re.search(r"case_([0-9a-f]{16})\.rs$", sp.get("file_name", ""))
                     if mm:
                         files.add(mm.group(1))
+                    elif sp.get("file_name", "") in self.file_alias:
+                        files.add(self.file_alias[sp["file_name"]])  # a file a case mounts with #[path]
                     exp = sp.get("expansion")
                     if exp and exp.get("span"):
                         walk([exp["span"]])
